@@ -17,8 +17,8 @@ INVS = ["TypeOK", "EveryRaiseSeenByHandler", "SwallowedIffTrue", "PropagatesIffF
         "TransparentWhenQuiet", "DriveComplete"]
 
 # bound profiles are defined in CatchSched.tla (AllProfiles); one exhaustive TLC run enumerates a whole set
-QUICK = {"q_trees", "q_periodic", "q_mixed", "q_cancel"}
-THOROUGH = {"q_trees", "q_periodic", "q_mixed", "q_cancel", "t_trees", "t_forest", "t_periodic", "t_mixed"}
+QUICK = {"q_trees", "q_periodic", "q_mixed", "q_cancel", "q_zero"}
+THOROUGH = {"q_trees", "q_periodic", "q_mixed", "q_cancel", "q_zero", "t_trees", "t_forest", "t_periodic", "t_mixed"}
 
 
 def _tlc(job):
@@ -96,6 +96,9 @@ def run(tier: str) -> int:
         "escaped": sum(1 for g in groups if any(d["esc"] for d in g[1][0]["drives"])),
         "swallowed": sum(1 for g in groups if len(g[1][0]["handler"]) > sum(1 for d in g[1][0]["drives"] if d["esc"])),
         "quiet": sum(1 for g in groups if cc.quiet(g[0])),
+        "zero_or_negative_relative_due_with_declined_raise": sum(1 for g in groups if any(
+            c["c"] == "sched_rel" and c["a"] <= 0 for cs in [g[0]["top"]] + [inv for b in g[0]["body"] for inv in b] for c in cs)
+            and any(d["esc"] for d in g[1][0]["drives"])),
         "periodic_cancelled": sum(1 for g in groups if "per" in g[0]["kind"] and any(
             c["c"] == "cancel" and g[0]["kind"][c["a"] - 1] == "per" for b in g[0]["body"] for inv in b for c in inv)),
     }
@@ -116,7 +119,7 @@ def run(tier: str) -> int:
     ck.assumptions = [
         "the inner scheduler is one of the three virtual-time schedulers (the statement's quantifier); their own order and clock laws are C28's",
         "after an exception escaped start()/advance_to() the replayer calls stop() before driving again (the virtual-time scheduler is left enabled by an escaping exception; the statement says nothing about that)",
-        "consecutive handler calls with the same exception object are collapsed: the statement says every exception is passed to the handler, not that it is passed exactly once",
+        "the handler is called exactly once per raise (one catch layer per scheduled action); under the second, never-accepting outer layer the recording handler is the inner one, still once",
         "whether discarding a cancelled entry moves the clock is left open (both clocks allowed under start(); invisible under advance_to)",
         "periodic nodes only under the advance_to driver; periodic actions do not schedule (they are handed no scheduler)",
         "after a periodic action raised the node never ticks again whatever the verdict (verdict FALSE: by C35's 'stops after the action raises')",
